@@ -1,9 +1,11 @@
 """C09 - pool keeps its size; workers are recycled on schedule without harm."""
+from engines import realparts as rp
 from engines import simgen as g
 from engines.simprop import make_execute
 
 LEVEL = 'exploration'
-RULE = ('sim: E1 histories with exits (clean 0, recycle 155, error codes, signals) '
+RULE = ('real: maxtasksperchild 1-4, 6-30 apply jobs returning their pid plus a map, pool sizes 1-4. ' 
+        'sim: E1 histories with exits (clean 0, recycle 155, error codes, signals) '
         'of any subset of workers between supervision steps, grow/shrink, '
         'submissions, quotas 1-3, pool sizes 1-4. After every supervision step the '
         'pool must be back at the configured size with distinct slot indices; '
@@ -15,7 +17,8 @@ ASSUMPTIONS = [
     'is free (the inactive test is best-effort by design); exclusions are counted',
     'the worker-side quota enforcement is checked by C03 (real worker loop)',
 ]
-SHARDS = {'quick': 4, 'thorough': 16}
+SHARDS = {'quick': 8, 'thorough': 16}
+WALL_LIMIT = {'quick': 1500, 'thorough': 6 * 3600}
 
 
 def sim_cases():
@@ -43,9 +46,11 @@ def _nontrivial(labels, sim):
 
 
 execute_sim = make_execute({'c09', 'c04'}, _nontrivial, prop='C09')
-PARTS = {'sim': execute_sim}
-EXPLORE = {'sim': (sim_cases(), execute_sim)}
+PARTS = {'sim': execute_sim, 'real': rp.execute_c09}
+EXPLORE = {'sim': (sim_cases(), execute_sim), 'real': (rp.c09_cases(), rp.execute_c09)}
 
 
 def run(ctx):
-    ctx.explore('sim', sim_cases(), execute_sim, n=ctx.pick(500, 25000))
+    ctx.explore('sim', sim_cases(), execute_sim, n=ctx.pick(250, 25000))
+    ctx.explore('real', rp.c09_cases(), rp.execute_c09, n=ctx.pick(2, 30),
+                shrink_budget=6)
